@@ -22,7 +22,7 @@ from pactisim import env, ops, refmodel, seams as sm
 from pactisim.env import HarnessError
 
 G_TIMEOUT = 60.0
-PARSE_OPS = ("parse", "from_strings", "optimize", "get_variable_bounds", "read_file", "compound_from_strings", "compound_merge", "compound_le", "compound_misc", "compound_file")
+PARSE_OPS = ("parse", "from_strings", "optimize", "get_variable_bounds", "read_file", "compound_from_strings", "compound_merge", "compound_le", "compound_misc", "compound_file", "compound_purity")
 PROBE_STRINGS = ["2x + 3y <= 4", "1 <= 2(x + y) - z <= 7", "0.5 a + (1/2)b = -1", "3|x| + |x| - y <= 0"]
 
 ALLOWED_EXC = {
@@ -519,6 +519,13 @@ class Session:
                     got = want
                 if got != want:
                     self.violate(i, name, "E1b", {"what": "cause decidable from names requires %s" % want, "got": got, "args": can}, "want=%s got=%s" % (want, got))
+
+        if name == "compound_purity" and out1[0] == "ok" and isinstance(res1, dict) and "O3" in O:
+            self.count("compound_purity_checks")
+            if not res1["operands_unchanged_by_calls"]:
+                self.violate(i, name, "O1", {"what": "a compound contract changed while merge / intersect / copy / to_dict were called on it"}, "target=compound-operand")
+            if not res1["operands_unchanged_by_editing_results"] or res1["results_sharing_with_operands"]:
+                self.violate(i, name, "O3b", {"what": "objects derived from a compound contract share mutable state with it", "derived": res1["results_sharing_with_operands"]}, "target=compound-operand vandal")
 
         # ---- O3c: same call again, same arguments
         res2 = None
